@@ -15,63 +15,41 @@ use crate::types::{Command, CommandLine, CommandResult, Redirection};
 ///      ("1", ">", "foo.txt"),
 ///  ])
 fn _get_std_fds(redirects: &[Redirection]) -> (Option<RawFd>, Option<RawFd>) {
-    if redirects.is_empty() {
-        return (None, None);
-    }
+    // The redirections are applied left to right, like the dup2() calls
+    // for an external program: `None` stands for the shell's own stdout /
+    // stderr, `N>&M` copies what M is bound to at that point. A target
+    // that cannot be opened yields Some(-1).
+    let mut fd_out: Option<RawFd> = None;
+    let mut fd_err: Option<RawFd> = None;
 
-    let mut fd_out = None;
-    let mut fd_err = None;
-
-    for i in 0..redirects.len() {
-        let item = &redirects[i];
-        if item.0 == "1" {
-            // 1>&2
-            let mut _fd_candidate = None;
-
-            if item.2 == "&2" {
-                let (_fd_out, _fd_err) = _get_std_fds(&redirects[i+1..]);
-                if let Some(fd) = _fd_err {
-                    _fd_candidate = Some(fd);
-                } else {
-                    _fd_candidate = unsafe { Some(libc::dup(2)) };
-                }
-            } else {  // 1> foo.log
-                let append = item.1 == ">>";
-                if let Ok(fd) = tools::create_raw_fd_from_file(&item.2, append) {
-                    _fd_candidate = Some(fd);
-                }
-            }
-
-            // for command like this: `alias > a.txt > b.txt > c.txt`,
-            // we need to return the last one, but close the previous two.
-            if let Some(fd) = fd_out {
-                unsafe { libc::close(fd); }
-            }
-
-            fd_out = _fd_candidate;
+    for item in redirects {
+        let is_out = item.0 == "1";
+        if !is_out && item.0 != "2" {
+            continue;
         }
 
-        if item.0 == "2" {
-            // 2>&1
-            let mut _fd_candidate = None;
-
-            if item.2 == "&1" {
-                if let Some(fd) = fd_out {
-                    _fd_candidate = unsafe { Some(libc::dup(fd)) };
-                }
-            } else {  // 2>foo.log
-                let append = item.1 == ">>";
-                if let Ok(fd) = tools::create_raw_fd_from_file(&item.2, append) {
-                    _fd_candidate = Some(fd);
+        let fd_new = if is_out && item.2 == "&2" {
+            unsafe { libc::dup(fd_err.unwrap_or(2)) }
+        } else if !is_out && item.2 == "&1" {
+            unsafe { libc::dup(fd_out.unwrap_or(1)) }
+        } else {
+            let append = item.1 == ">>";
+            match tools::create_raw_fd_from_file(&item.2, append) {
+                Ok(fd) => fd,
+                Err(e) => {
+                    println_stderr!("cicada: {}: {}", &item.2, e);
+                    -1
                 }
             }
+        };
 
-            if let Some(fd) = fd_err {
+        let slot = if is_out { &mut fd_out } else { &mut fd_err };
+        if let Some(fd) = *slot {
+            if fd >= 0 {
                 unsafe { libc::close(fd); }
             }
-
-            fd_err = _fd_candidate;
         }
+        *slot = Some(fd_new);
     }
 
     (fd_out, fd_err)
@@ -87,7 +65,9 @@ fn _get_dupped_stdout_fd(cmd: &Command, cl: &CommandLine) -> RawFd {
 
     let (_fd_out, _fd_err) = _get_std_fds(&cmd.redirects_to);
     if let Some(fd) = _fd_err {
-        unsafe { libc::close(fd); }
+        if fd >= 0 {
+            unsafe { libc::close(fd); }
+        }
     }
     if let Some(fd) = _fd_out {
         fd
@@ -108,7 +88,9 @@ fn _get_dupped_stderr_fd(cmd: &Command, cl: &CommandLine) -> RawFd {
 
     let (_fd_out, _fd_err) = _get_std_fds(&cmd.redirects_to);
     if let Some(fd) = _fd_out {
-        unsafe { libc::close(fd); }
+        if fd >= 0 {
+            unsafe { libc::close(fd); }
+        }
     }
 
     if let Some(fd) = _fd_err {
@@ -123,10 +105,11 @@ fn _get_dupped_stderr_fd(cmd: &Command, cl: &CommandLine) -> RawFd {
     }
 }
 
-pub fn print_stdout(info: &str, cmd: &Command, cl: &CommandLine) {
+/// Returns false if the redirection target could not be opened.
+pub fn print_stdout(info: &str, cmd: &Command, cl: &CommandLine) -> bool {
     let fd = _get_dupped_stdout_fd(cmd, cl);
     if fd == -1 {
-        return;
+        return false;
     }
 
     unsafe {
@@ -147,12 +130,14 @@ pub fn print_stdout(info: &str, cmd: &Command, cl: &CommandLine) {
             }
         }
     }
+    true
 }
 
-pub fn print_stderr(info: &str, cmd: &Command, cl: &CommandLine) {
+/// Returns false if the redirection target could not be opened.
+pub fn print_stderr(info: &str, cmd: &Command, cl: &CommandLine) -> bool {
     let fd = _get_dupped_stderr_fd(cmd, cl);
     if fd == -1 {
-        return;
+        return false;
     }
 
     unsafe {
@@ -174,6 +159,7 @@ pub fn print_stderr(info: &str, cmd: &Command, cl: &CommandLine) {
             }
         }
     }
+    true
 }
 
 pub fn print_stderr_with_capture(info: &str, cr: &mut CommandResult,
@@ -193,7 +179,8 @@ pub fn print_stdout_with_capture(info: &str, cr: &mut CommandResult,
     cr.status = 0;
     if capture {
         cr.stdout = info.to_string();
-    } else {
-        print_stdout(info, cmd, cl);
+    } else if !print_stdout(info, cmd, cl) {
+        // the redirection target could not be opened
+        cr.status = 1;
     }
 }
